@@ -1,19 +1,1072 @@
-// Package c18: STUB — property C18 is not built yet.
+// Package c18: traffic shaping (trafficshape.Handler / Listener / Conn) — shaping delays or cuts a
+// response but never alters its bytes; invalid configurations are rejected and change nothing; an
+// accepted configuration applies to later connections only; closing releases resources.
+//
+// Line protocol (tokens separated by one space):
+//
+//	config D S*                D = d:none | d:<up>:<down>:<latency>
+//	                           S = null | s:<R>:<maxbw>:<T>:<H>:<C>   R = a|b|c|empty|bad
+//	                           T = - | item,item..   item = nil | <hex bytes string>/<bandwidth>
+//	                           H = - | item,..       item = nil | <byte>/<duration ms>/<count>
+//	                           C = - | item,..       item = nil | <byte>/<count>
+//	configraw <hex body>       malformed request body (oracle only)
+//	conn <id>                  Listener.GetTrafficShapedConn over a recording in-memory conn
+//	ctx <id> <u> <rs> <hl> <f> what proxy.go does before writing a response: URL class u (a|b|c|n),
+//	                           range start rs (-1 = multipart/invalid), dumped head length hl,
+//	                           f = - | <n>: swap in a local bucket of capacity n draining every 200µs
+//	write <id> <hex>           Conn.Write
+//	close <id>                 Conn.Close
+//	par <n> <u> <rs> <hl> <f> <hex>   n concurrent connections write the same response (oracle only)
+//	slow <u> <rs> <bw> <len>   wall-clock measurement of a throttle with the real 1 s buckets (oracle only)
+//	leak [strict]              close everything, count bucket drain goroutines (oracle only)
 package c18
 
-import "verif/harness/internal/core"
+import (
+	"fmt"
+	"net"
+	"net/http/httptest"
+	"regexp"
+	"runtime"
+	"sort"
+	"strconv"
+	"strings"
+	"sync"
+	"time"
+
+	mlog "github.com/google/martian/v3/log"
+	"github.com/google/martian/v3/trafficshape"
+
+	"verif/harness/internal/core"
+)
 
 type P struct{}
 
 func init() { core.Register(P{}) }
 
-func (P) ID() string   { return "C18" }
-func (P) Rule() string { return "stub" }
-func (P) Gen(r *core.Rand, tier string, emit func([]string)) {}
-func (P) NewExec() core.Exec                                   { return ex{} }
-func (P) Nontrivial(ops []string, impl []string) bool         { return false }
+func (P) ID() string { return "C18" }
+func (P) Rule() string {
+	return "case = a history of shaping-endpoint requests (valid and invalid configurations: overlapping/malformed throttle byte ranges, " +
+		"negative values, zero counts, null entries, empty/invalid regex, duplicate regex) interleaved with shaped connections created by the real " +
+		"Listener over a recording in-memory conn, responses (URL class, Range start, head length, optional fast bucket of capacity 1..16) and " +
+		"Conn.Write calls with random write sizes, followed by a goroutine leak check; plus concurrent-connection cases and wall-clock throttle " +
+		"measurements; distinct by hash of the op list; non-trivial when the case has at least one accepted configuration and at least one " +
+		"write that triggered an action (halt, close or bandwidth change) or at least one rejected configuration followed by a shaped write"
+}
 
-type ex struct{}
+func (P) Nontrivial(ops []string, impl []string) bool {
+	acc, rej, act, wr := false, false, false, false
+	for _, l := range impl {
+		switch {
+		case l == "accepted":
+			acc = true
+		case strings.HasPrefix(l, "rejected"):
+			rej = true
+		case strings.HasPrefix(l, "w "):
+			wr = true
+			if !strings.Contains(l, " ev=- ") {
+				act = true
+			}
+		case strings.HasPrefix(l, "par ok") || strings.HasPrefix(l, "slow ok"):
+			act = true
+		}
+	}
+	return acc && (act || (rej && wr))
+}
 
-func (ex) Do(op string) core.Result { return core.Result{Impl: "bad-op"} }
-func (ex) Close()                   {}
+// ---- URL classes and regexes (disjoint, so that the map iteration order in proxy.go cannot matter) ----
+
+var regexOf = map[string]string{"a": `^http://a\.test/.*`, "b": `^http://b\.test/`, "c": `c\.test/[0-9]+$`, "empty": "", "bad": "([a-"}
+var idOfRegex = map[string]string{}
+var urlOf = map[string]string{"a": "http://a.test/x/y", "b": "http://b.test/", "c": "http://c.test/42", "n": "http://n.test/a.test"}
+
+func init() {
+	for k, v := range regexOf {
+		idOfRegex[v] = k
+	}
+}
+
+// ---- log hook: the shaped write loop reports each action it performs through martian/log ----
+
+type hook struct {
+	mu  sync.Mutex
+	evs []string
+}
+
+const pfx = "trafficshape: "
+
+func (h *hook) add(s string) { h.mu.Lock(); h.evs = append(h.evs, s); h.mu.Unlock() }
+func (h *hook) take() []string {
+	h.mu.Lock()
+	defer h.mu.Unlock()
+	e := h.evs
+	h.evs = nil
+	return e
+}
+func (h *hook) Infof(f string, a ...interface{}) {
+	if len(f) < 24 || !strings.HasPrefix(f, pfx) {
+		return
+	}
+	switch {
+	case strings.HasPrefix(f[len(pfx):], "Closing connection") && len(a) == 2:
+		h.add(fmt.Sprintf("c@%v", a[1]))
+	case strings.HasPrefix(f[len(pfx):], "Changing connection bandwidth") && len(a) == 3:
+		h.add(fmt.Sprintf("b%v@%v", a[0], a[2]))
+	}
+}
+func (h *hook) Debugf(f string, a ...interface{}) {
+	if len(f) > 24 && f[len(pfx)] == 'S' && strings.HasPrefix(f[len(pfx):], "Sleeping for time") && len(a) == 3 {
+		h.add(fmt.Sprintf("s%v@%v", a[0], a[2]))
+	}
+}
+func (h *hook) Errorf(f string, a ...interface{}) {}
+
+var theHook = &hook{}
+var hookOnce sync.Once
+
+// ---- recording inner conn ----
+
+type recConn struct {
+	mu     sync.Mutex
+	buf    []byte
+	closed bool
+}
+
+type addr struct{}
+
+func (addr) Network() string { return "mem" }
+func (addr) String() string  { return "mem" }
+
+func (c *recConn) Read(b []byte) (int, error) { return 0, fmt.Errorf("EOF") }
+func (c *recConn) Write(b []byte) (int, error) {
+	c.mu.Lock()
+	defer c.mu.Unlock()
+	if c.closed {
+		return 0, fmt.Errorf("closed")
+	}
+	c.buf = append(c.buf, b...)
+	return len(b), nil
+}
+func (c *recConn) Close() error                       { c.mu.Lock(); c.closed = true; c.mu.Unlock(); return nil }
+func (c *recConn) LocalAddr() net.Addr                { return addr{} }
+func (c *recConn) RemoteAddr() net.Addr               { return addr{} }
+func (c *recConn) SetDeadline(t time.Time) error      { return nil }
+func (c *recConn) SetReadDeadline(t time.Time) error  { return nil }
+func (c *recConn) SetWriteDeadline(t time.Time) error { return nil }
+func (c *recConn) snapshot() []byte {
+	c.mu.Lock()
+	defer c.mu.Unlock()
+	return append([]byte{}, c.buf...)
+}
+
+type stubListener struct{ ch chan struct{} }
+
+func (s *stubListener) Accept() (net.Conn, error) { <-s.ch; return nil, fmt.Errorf("closed") }
+func (s *stubListener) Close() error {
+	select {
+	case <-s.ch:
+	default:
+		close(s.ch)
+	}
+	return nil
+}
+func (s *stubListener) Addr() net.Addr { return addr{} }
+
+// ---- goroutine accounting ----
+
+func bucketLoops() int {
+	buf := make([]byte, 1<<20)
+	for {
+		n := runtime.Stack(buf, true)
+		if n < len(buf) {
+			return strings.Count(string(buf[:n]), "created by github.com/google/martian/v3/trafficshape.NewBucket")
+		}
+		buf = make([]byte, 2*len(buf))
+	}
+}
+
+// settleBase: goroutines of the previous case may still be exiting; take the count once it is stable.
+func settleBase() int {
+	prev := bucketLoops()
+	for i := 0; i < 200; i++ {
+		time.Sleep(2 * time.Millisecond)
+		n := bucketLoops()
+		if n == prev && i >= 2 {
+			return n
+		}
+		prev = n
+	}
+	return prev
+}
+
+// waitLoops polls until the number of drain goroutines equals want (they exit asynchronously).
+func waitLoops(want int) int {
+	if want < 0 {
+		return bucketLoops()
+	}
+	dl := time.Now().Add(400 * time.Millisecond)
+	for {
+		n := bucketLoops()
+		if n == want || time.Now().After(dl) {
+			return n
+		}
+		time.Sleep(2 * time.Millisecond)
+	}
+}
+
+// ---- executor ----
+
+type oAct struct {
+	byt, dur, rem int64
+}
+
+// oShape is the oracle's own reading of an accepted shape (independent of the Lean model).
+type oShape struct {
+	closes, halts []*oAct
+	bounds        map[int64]bool // throttle interval end points
+}
+
+type resp struct {
+	shaped       bool // the oracle expects shaping (URL matches a shape of the configuration current when the conn was created)
+	regex        string
+	rs, hl       int64
+	headLeft     int64
+	pos          int64 // absolute body offset delivered so far
+	closedByRule bool
+}
+
+type cstate struct {
+	c         *trafficshape.Conn
+	rec       *recConn
+	gen       int
+	nLocal    int
+	written   []byte
+	resp      *resp
+	closed    bool
+	firstDone bool
+	lat       int64
+	cut       bool // a close action already cut this connection's stream ("up to the first close action")
+}
+
+type ex struct {
+	sl       *stubListener
+	tsl      *trafficshape.Listener
+	h        *trafficshape.Handler
+	conns    map[string]*cstate
+	order    []string
+	gen      int
+	cfg      map[string]*oShape
+	latency  int64
+	base     int // drain goroutines alive before this case
+	cfgLoops int // global buckets of accepted configurations (never closed by the code: known finding)
+	extra    []*trafficshape.Bucket
+	replaced int
+	slack    int
+}
+
+// expected is the number of drain goroutines the harness can account for right now.
+func (e *ex) expected() int {
+	n := e.base + e.cfgLoops + len(e.extra) + e.slack
+	if e.tsl != nil {
+		n += 2
+	}
+	for _, id := range e.order {
+		if cs := e.conns[id]; !cs.closed {
+			n += 2 * cs.nLocal
+		}
+	}
+	return n
+}
+
+// settle waits for the drain goroutines to reach the expected number and returns the surplus
+// (goroutines nobody closed); the surplus is remembered so that it is reported once.
+func (e *ex) settle() int {
+	want := e.expected()
+	d := waitLoops(want) - want
+	e.slack += d
+	return d
+}
+
+func (P) NewExec() core.Exec {
+	hookOnce.Do(func() { mlog.SetLogger(theHook) })
+	e := &ex{conns: map[string]*cstate{}, cfg: map[string]*oShape{}}
+	e.base = settleBase()
+	e.sl = &stubListener{ch: make(chan struct{})}
+	e.tsl = trafficshape.NewListener(e.sl)
+	e.h = trafficshape.NewHandler(e.tsl)
+	theHook.take()
+	return e
+}
+
+func (e *ex) Close() {
+	for _, id := range e.order {
+		cs := e.conns[id]
+		if !cs.closed {
+			cs.c.Close()
+			cs.closed = true
+		}
+	}
+	for _, b := range e.extra {
+		b.Close()
+	}
+	e.extra = nil
+	if e.tsl != nil {
+		e.tsl.Close()
+		e.tsl = nil
+	}
+	waitLoops(e.expected())
+}
+
+func fail(sig, format string, a ...interface{}) core.Result {
+	return core.Result{Impl: "fail", Fail: fmt.Sprintf(format, a...), Sig: sig}
+}
+
+func (e *ex) Do(op string) core.Result {
+	t := strings.Fields(op)
+	if len(t) == 0 {
+		return core.Result{Impl: "bad-op"}
+	}
+	switch {
+	case t[0] == "config" && len(t) >= 2:
+		return e.doConfig(t[1:])
+	case t[0] == "configraw" && len(t) == 2:
+		return e.doConfigRaw(t[1])
+	case t[0] == "conn" && len(t) == 2:
+		return e.doConn(t[1])
+	case t[0] == "ctx" && len(t) == 6:
+		return e.doCtx(t[1], t[2], t[3], t[4], t[5])
+	case t[0] == "write" && len(t) == 3:
+		return e.doWrite(t[1], t[2])
+	case t[0] == "close" && len(t) == 2:
+		return e.doClose(t[1])
+	case t[0] == "par" && len(t) == 7:
+		return e.doPar(t[1:])
+	case t[0] == "slow" && len(t) == 5:
+		return e.doSlow(t[1:])
+	case t[0] == "leak":
+		return e.doLeak(len(t) > 1 && t[1] == "strict")
+	}
+	return core.Result{Impl: "bad-op"}
+}
+
+// ---- config ----
+
+type rawShape struct {
+	null      bool
+	regexID   string
+	maxbw     int64
+	throttles []string // "nil" or "<bytes>\x00<bw>"
+	thr       [][2]string
+	halts     [][]int64 // nil entry = null
+	closes    [][]int64
+}
+
+func splitItems(s string) []string {
+	if s == "-" {
+		return nil
+	}
+	return strings.Split(s, ",")
+}
+
+func ints(s string, n int) ([]int64, bool) {
+	p := strings.Split(s, "/")
+	if len(p) != n {
+		return nil, false
+	}
+	out := make([]int64, n)
+	for i, x := range p {
+		v, err := strconv.ParseInt(x, 10, 64)
+		if err != nil {
+			return nil, false
+		}
+		out[i] = v
+	}
+	return out, true
+}
+
+func jsonStr(s string) string {
+	var b strings.Builder
+	b.WriteByte('"')
+	for _, c := range []byte(s) {
+		if c < 0x20 || c == '"' || c == '\\' || c >= 0x7f {
+			fmt.Fprintf(&b, "\\u%04x", c)
+		} else {
+			b.WriteByte(c)
+		}
+	}
+	b.WriteByte('"')
+	return b.String()
+}
+
+// buildConfig turns the tokens into the JSON request body and the parsed form used by the oracle.
+func buildConfig(toks []string) (string, []rawShape, []int64, bool) {
+	var def []int64
+	var b strings.Builder
+	b.WriteString(`{"trafficshape":{`)
+	if toks[0] != "d:none" {
+		p := strings.Split(toks[0], ":")
+		if len(p) != 4 || p[0] != "d" {
+			return "", nil, nil, false
+		}
+		var ok bool
+		def, ok = ints(strings.Join(p[1:], "/"), 3)
+		if !ok {
+			return "", nil, nil, false
+		}
+		fmt.Fprintf(&b, `"default":{"bandwidth":{"up":%d,"down":%d},"latency":%d},`, def[0], def[1], def[2])
+	}
+	b.WriteString(`"shapes":[`)
+	var shapes []rawShape
+	for i, s := range toks[1:] {
+		if i > 0 {
+			b.WriteByte(',')
+		}
+		if s == "null" {
+			b.WriteString("null")
+			shapes = append(shapes, rawShape{null: true})
+			continue
+		}
+		p := strings.Split(s, ":")
+		if len(p) != 6 || p[0] != "s" {
+			return "", nil, nil, false
+		}
+		re, ok := regexOf[p[1]]
+		if !ok {
+			return "", nil, nil, false
+		}
+		mb, err := strconv.ParseInt(p[2], 10, 64)
+		if err != nil {
+			return "", nil, nil, false
+		}
+		rs := rawShape{regexID: p[1], maxbw: mb}
+		fmt.Fprintf(&b, `{"url_regex":%s,"max_global_bandwidth":%d,"throttles":[`, jsonStr(re), mb)
+		for j, it := range splitItems(p[3]) {
+			if j > 0 {
+				b.WriteByte(',')
+			}
+			if it == "nil" {
+				b.WriteString("null")
+				rs.thr = append(rs.thr, [2]string{"nil", ""})
+				continue
+			}
+			q := strings.Split(it, "/")
+			if len(q) != 2 {
+				return "", nil, nil, false
+			}
+			by, ok := core.Unhex(q[0])
+			bw, err := strconv.ParseInt(q[1], 10, 64)
+			if !ok || err != nil {
+				return "", nil, nil, false
+			}
+			fmt.Fprintf(&b, `{"bytes":%s,"bandwidth":%d}`, jsonStr(string(by)), bw)
+			rs.thr = append(rs.thr, [2]string{string(by), q[1]})
+		}
+		b.WriteString(`],"halts":[`)
+		for j, it := range splitItems(p[4]) {
+			if j > 0 {
+				b.WriteByte(',')
+			}
+			if it == "nil" {
+				b.WriteString("null")
+				rs.halts = append(rs.halts, nil)
+				continue
+			}
+			v, ok := ints(it, 3)
+			if !ok {
+				return "", nil, nil, false
+			}
+			fmt.Fprintf(&b, `{"byte":%d,"duration":%d,"count":%d}`, v[0], v[1], v[2])
+			rs.halts = append(rs.halts, v)
+		}
+		b.WriteString(`],"close_connections":[`)
+		for j, it := range splitItems(p[5]) {
+			if j > 0 {
+				b.WriteByte(',')
+			}
+			if it == "nil" {
+				b.WriteString("null")
+				rs.closes = append(rs.closes, nil)
+				continue
+			}
+			v, ok := ints(it, 2)
+			if !ok {
+				return "", nil, nil, false
+			}
+			fmt.Fprintf(&b, `{"byte":%d,"count":%d}`, v[0], v[1])
+			rs.closes = append(rs.closes, v)
+		}
+		b.WriteString(`]}`)
+		shapes = append(shapes, rs)
+	}
+	b.WriteString(`]}}`)
+	return b.String(), shapes, def, true
+}
+
+var tailNum = regexp.MustCompile(`: (\d+)\s*$`)
+var numRe = regexp.MustCompile(`index:? (\d+)`)
+
+func classify(msg string) string {
+	enum := "other"
+	for _, p := range [][2]string{
+		{"nil shape at index", "nilshape"}, {"no url_regex", "noregex"}, {"doesn't compile", "badregex"},
+		{"max_bandwidth cannot be negative", "negmax"}, {"nil throttle", "nilthrottle"}, {"invalid bandwidth", "badbw"},
+		{"invalid bytes", "badbytes"}, {"nil halt", "nilhalt"}, {"invalid halt", "badhalt"}, {" 0 count for halt", "zerohalt"},
+		{"nil close_connection", "nilclose"}, {"invalid close_connection", "badclose"}, {"0 count for close_connection", "zeroclose"},
+		{"overlapping throttle", "overlap"}, {"Invalid Defaults", "defaults"},
+	} {
+		if strings.Contains(msg, p[0]) {
+			enum = p[1]
+			break
+		}
+	}
+	// the item index and the shape index are the last "index N" groups of the message
+	tail := msg
+	if i := strings.LastIndex(msg, " at "); enum == "badbytes" && i >= 0 {
+		tail = msg[i:]
+	}
+	m := numRe.FindAllStringSubmatch(tail, -1)
+	switch len(m) {
+	case 0:
+		if t := tailNum.FindStringSubmatch(msg); t != nil {
+			return enum + " s=" + t[1]
+		}
+		return enum
+	case 1:
+		return enum + " s=" + m[0][1]
+	default:
+		return enum + " s=" + m[len(m)-1][1] + " i=" + m[len(m)-2][1]
+	}
+}
+
+func (e *ex) post(body string) (int, string) {
+	req := httptest.NewRequest("POST", "http://martian.proxy/shape-traffic", strings.NewReader(body))
+	rw := httptest.NewRecorder()
+	done := make(chan struct{})
+	go func() { defer close(done); e.h.ServeHTTP(rw, req) }()
+	select {
+	case <-done:
+	case <-time.After(10 * time.Second):
+		return -1, "timeout"
+	}
+	return rw.Code, rw.Body.String()
+}
+
+// wellFormedThrottle is the oracle's own reading of a throttle byte range: "<start>-<end>" with either
+// side optional, decimal digits, start < end.  ok=false: malformed.
+var thrRe = regexp.MustCompile(`^(\+?[0-9]{0,18})-(\+?[0-9]{0,18})$`)
+
+func wellFormedThrottle(s string) (int64, int64, bool) {
+	m := thrRe.FindStringSubmatch(s)
+	if m == nil || m[1] == "+" || m[2] == "+" {
+		return 0, 0, false
+	}
+	var st, en int64 = 0, -1
+	if m[1] != "" {
+		st, _ = strconv.ParseInt(m[1], 10, 64)
+	}
+	if m[2] != "" {
+		en, _ = strconv.ParseInt(m[2], 10, 64)
+		if en <= st {
+			return 0, 0, false
+		}
+	}
+	return st, en, true
+}
+
+// mustReject is the property's own list of invalid configurations (it does not try to list every
+// reason the code may have; it only says which configurations MUST be refused).
+func mustReject(shapes []rawShape, def []int64) string {
+	if def != nil && (def[0] < 0 || def[1] < 0 || def[2] < 0) {
+		return "negative default"
+	}
+	for _, s := range shapes {
+		if s.null {
+			continue
+		}
+		if s.regexID == "bad" {
+			return "invalid pattern"
+		}
+		if s.maxbw < 0 {
+			return "negative max bandwidth"
+		}
+		type iv struct{ s, e int64 }
+		var ivs []iv
+		for _, t := range s.thr {
+			if t[0] == "nil" {
+				continue
+			}
+			st, en, ok := wellFormedThrottle(t[0])
+			if !ok {
+				return "malformed throttle " + t[0]
+			}
+			if bw, _ := strconv.ParseInt(t[1], 10, 64); bw < 0 {
+				return "negative throttle bandwidth"
+			}
+			ivs = append(ivs, iv{st, en})
+		}
+		for i := range ivs {
+			for j := range ivs {
+				if i == j {
+					continue
+				}
+				a, b := ivs[i], ivs[j]
+				ae, be := a.e, b.e
+				if ae == -1 {
+					ae = 1 << 62
+				}
+				if be == -1 {
+					be = 1 << 62
+				}
+				if a.s < be && b.s < ae {
+					return "overlapping throttles"
+				}
+			}
+		}
+		for _, h := range s.halts {
+			if h != nil && (h[0] < 0 || h[1] < 0) {
+				return "negative halt"
+			}
+		}
+		for _, c := range s.closes {
+			if c != nil && c[0] < 0 {
+				return "negative close offset"
+			}
+		}
+	}
+	return ""
+}
+
+func (e *ex) doConfig(toks []string) core.Result {
+	body, shapes, def, ok := buildConfig(toks)
+	if !ok {
+		return core.Result{Impl: "bad-op"}
+	}
+	code, rb := e.post(body)
+	if code == -1 {
+		return fail("hang", "ServeHTTP did not return")
+	}
+	why := mustReject(shapes, def)
+	if code == 200 {
+		if why != "" {
+			return fail("c18:invalid-config-accepted", "configuration accepted although it has %s: %s", why, body)
+		}
+		if rb != body {
+			return fail("c18:config-echo", "200 response does not echo the configuration")
+		}
+		core.Count("config:accepted")
+		// the oracle's reading of the accepted configuration
+		e.gen++
+		if len(e.cfg) > 0 {
+			e.replaced++
+		}
+		e.cfg = map[string]*oShape{}
+		n := 0
+		for _, s := range shapes {
+			if s.null {
+				continue
+			}
+			n++
+			os := &oShape{bounds: map[int64]bool{}}
+			for _, h := range s.halts {
+				if h != nil {
+					os.halts = append(os.halts, &oAct{byt: h[0], dur: h[1], rem: h[2]})
+				}
+			}
+			for _, c := range s.closes {
+				if c != nil {
+					os.closes = append(os.closes, &oAct{byt: c[0], rem: c[1]})
+				}
+			}
+			for _, t := range s.thr {
+				st, en, _ := wellFormedThrottle(t[0])
+				os.bounds[st] = true
+				os.bounds[en] = true
+			}
+			e.cfg[s.regexID] = os
+		}
+		e.cfgLoops += n
+		e.latency = 0
+		if def != nil {
+			e.latency = def[2]
+		}
+		if d := e.settle(); d != 0 {
+			return fail("c18:leak:accept-extra-goroutines", "accepting a configuration with %d shapes started %d bucket goroutines", n, n+d)
+		}
+		return core.Result{Impl: "accepted"}
+	}
+	if code != 400 {
+		return fail("c18:config-status", "unexpected status %d", code)
+	}
+	cl := classify(rb)
+	core.Count("config:rejected:" + strings.Fields(cl)[0])
+	if d := e.settle(); d != 0 {
+		return core.Result{Impl: "rejected " + cl, Sig: "c18:leak:rejected-config-bucket",
+			Fail: fmt.Sprintf("a rejected configuration (%s) left %d bucket drain goroutine(s) running: %s", cl, d, body)}
+	}
+	return core.Result{Impl: "rejected " + cl}
+}
+
+func (e *ex) doConfigRaw(h string) core.Result {
+	b, ok := core.Unhex(h)
+	if !ok {
+		return core.Result{Impl: "bad-op"}
+	}
+	code, _ := e.post(string(b))
+	core.Count("configraw")
+	if code != 400 {
+		return core.Result{SkipModel: true, Impl: "fail", Sig: "c18:malformed-config-accepted", Fail: fmt.Sprintf("malformed body answered %d: %q", code, b)}
+	}
+	if d := e.settle(); d != 0 {
+		return core.Result{SkipModel: true, Impl: "fail", Sig: "c18:leak:rejected-config-bucket", Fail: "a malformed body left bucket goroutines running"}
+	}
+	return core.Result{SkipModel: true, Impl: "rejected"}
+}
+
+// ---- connections ----
+
+func (e *ex) doConn(id string) core.Result {
+	if _, dup := e.conns[id]; dup {
+		return core.Result{Impl: "bad-op"}
+	}
+	rec := &recConn{}
+	c := e.tsl.GetTrafficShapedConn(rec)
+	cs := &cstate{c: c, rec: rec, gen: e.gen, nLocal: len(c.LocalBuckets), lat: e.latency}
+	e.conns[id] = cs
+	e.order = append(e.order, id)
+	var keys []string
+	for re, b := range c.LocalBuckets {
+		k, ok := idOfRegex[re]
+		if !ok {
+			k = "?"
+		}
+		keys = append(keys, fmt.Sprintf("%s:%d", k, b.WriteBucket.Capacity()))
+	}
+	sort.Strings(keys)
+	core.Count("conn")
+	if len(keys) == 0 {
+		return core.Result{Impl: "conn -"}
+	}
+	return core.Result{Impl: "conn " + strings.Join(keys, ",")}
+}
+
+// setContext is what Proxy.handle does between the response modifiers and res.Write (proxy.go,
+// "check if conn is a traffic shaped connection"), with the URL string, the range start and the
+// dumped head length supplied by the case.
+func setContext(c *trafficshape.Conn, url string, rangeStart, headerLen int64) {
+	c.Context = &trafficshape.Context{}
+	for urlregex, buckets := range c.LocalBuckets {
+		if match, _ := regexp.MatchString(urlregex, url); match {
+			if rangeStart > -1 {
+				c.Context = &trafficshape.Context{
+					Shaping:            true,
+					Buckets:            buckets,
+					GlobalBucket:       c.GlobalBuckets[urlregex],
+					URLRegex:           urlregex,
+					RangeStart:         rangeStart,
+					ByteOffset:         rangeStart,
+					HeaderLen:          headerLen,
+					HeaderBytesWritten: 0,
+				}
+				c.Context.NextActionInfo = c.GetNextActionFromByte(rangeStart)
+				c.Context.ThrottleContext = c.GetCurrentThrottle(rangeStart)
+				if c.Context.ThrottleContext.ThrottleNow {
+					c.Context.Buckets.WriteBucket.SetCapacity(c.Context.ThrottleContext.Bandwidth)
+				}
+			}
+			break
+		}
+	}
+}
+
+func nextStr(n *trafficshape.NextActionInfo) string {
+	if n == nil || !n.ActionNext {
+		return "none"
+	}
+	return fmt.Sprintf("%d@%d", n.Index, n.ByteOffset)
+}
+
+func (e *ex) useFast(c *trafficshape.Conn, f string) {
+	if f == "-" || !c.Context.Shaping {
+		return
+	}
+	n, _ := strconv.ParseInt(f, 10, 64)
+	if n < 1 {
+		n = 1
+	}
+	b := trafficshape.NewBucket(n, 200*time.Microsecond)
+	e.extra = append(e.extra, b)
+	c.Context.Buckets = &trafficshape.Buckets{ReadBucket: c.Context.Buckets.ReadBucket, WriteBucket: b}
+}
+
+func (e *ex) doCtx(id, u, rsS, hlS, f string) core.Result {
+	cs, ok := e.conns[id]
+	url, ok2 := urlOf[u]
+	rs, err1 := strconv.ParseInt(rsS, 10, 64)
+	hl, err2 := strconv.ParseInt(hlS, 10, 64)
+	if !ok || !ok2 || err1 != nil || err2 != nil || cs.closed || hl < 0 || rs < -1 {
+		return core.Result{Impl: "bad-op"}
+	}
+	setContext(cs.c, url, rs, hl)
+	e.useFast(cs.c, f)
+	ctx := cs.c.Context
+	// oracle bookkeeping: is this response expected to be shaped at all?
+	r := &resp{rs: rs, hl: hl, headLeft: hl, pos: rs}
+	if _, has := e.cfg[u]; has && cs.gen == e.gen && rs > -1 {
+		r.shaped, r.regex = true, u
+	}
+	cs.resp = r
+	if !ctx.Shaping {
+		core.Count("ctx:unshaped")
+		if r.shaped {
+			return fail("c18:matching-url-not-shaped", "URL %s matches shape %s of the configuration the connection was accepted under, but no shaping context was set", url, u)
+		}
+		return core.Result{Impl: "ctx shaping=0"}
+	}
+	core.Count("ctx:shaped")
+	thr := "none"
+	if ctx.ThrottleContext != nil && ctx.ThrottleContext.ThrottleNow {
+		thr = strconv.FormatInt(ctx.ThrottleContext.Bandwidth, 10)
+	}
+	return core.Result{Impl: fmt.Sprintf("ctx shaping=1 regex=%s next=%s thr=%s cap=%d", idOfRegex[ctx.URLRegex], nextStr(ctx.NextActionInfo), thr,
+		ctx.Buckets.WriteBucket.Capacity())}
+}
+
+func (e *ex) counts(regexID string) string {
+	e.tsl.Shapes.RLock()
+	defer e.tsl.Shapes.RUnlock()
+	us, ok := e.tsl.Shapes.M[regexOf[regexID]]
+	if !ok {
+		return "-"
+	}
+	var out []string
+	for _, h := range us.Shape.Halts {
+		out = append(out, strconv.FormatInt(h.Count, 10))
+	}
+	for _, c := range us.Shape.CloseConnections {
+		out = append(out, strconv.FormatInt(c.Count, 10))
+	}
+	if len(out) == 0 {
+		return "-"
+	}
+	return strings.Join(out, ",")
+}
+
+func isPrefix(p, s []byte) bool { return len(p) <= len(s) && string(s[:len(p)]) == string(p) }
+
+func (e *ex) doWrite(id, hx string) core.Result {
+	cs, ok := e.conns[id]
+	data, ok2 := core.Unhex(hx)
+	if !ok || !ok2 || cs.closed {
+		return core.Result{Impl: "bad-op"}
+	}
+	theHook.take()
+	before := len(cs.rec.snapshot())
+	t0 := time.Now()
+	n, err := cs.c.Write(data)
+	el := time.Since(t0)
+	evs := theHook.take()
+	all := cs.rec.snapshot()
+	delta := all[before:]
+	cs.written = append(cs.written, data...)
+	st := "ok"
+	if err != nil {
+		if _, fc := err.(*trafficshape.ErrForceClose); fc {
+			st = "close"
+		} else {
+			st = "err"
+		}
+	}
+	core.Count("write:" + st)
+	ctx := cs.c.Context
+	sh := 0
+	capS, rid := "-", "-"
+	if ctx.Shaping {
+		sh = 1
+		capS = strconv.FormatInt(ctx.Buckets.WriteBucket.Capacity(), 10)
+	}
+	if ctx.URLRegex != "" {
+		rid = idOfRegex[ctx.URLRegex]
+	}
+	ev := "-"
+	if len(evs) > 0 {
+		ev = strings.Join(evs, ",")
+		for _, x := range evs {
+			core.Count("event:" + x[:1])
+		}
+	}
+	cnt := "-"
+	if rid != "-" {
+		cnt = e.counts(rid)
+	}
+	impl := fmt.Sprintf("w n=%d st=%s d=%s off=%d hw=%d next=%s shaping=%d cap=%s ev=%s counts=%s", n, st, core.Hex(delta),
+		ctx.ByteOffset, ctx.HeaderBytesWritten, nextStr(ctx.NextActionInfo), sh, capS, ev, cnt)
+	res := core.Result{Impl: impl}
+	bad := func(sig, format string, a ...interface{}) core.Result {
+		res.Sig, res.Fail = sig, fmt.Sprintf(format, a...)
+		return res
+	}
+
+	// ---- the property, stated over what the client side of the connection received ----
+	if st == "close" {
+		defer func() { cs.cut = true }()
+	}
+	if !cs.cut && !isPrefix(all, cs.written) {
+		return bad("c18:bytes-altered", "received bytes are not a prefix of the written bytes (conn %s): wrote %x, received %x", id, cs.written, all)
+	}
+	if string(delta) != string(data[:len(delta)]) || n != len(delta) {
+		return bad("c18:bytes-altered", "this write delivered %x (n=%d) which is not a prefix of its data %x", delta, n, data)
+	}
+	if st == "err" {
+		return bad("c18:write-error", "Write failed with %v", err)
+	}
+	r := cs.resp
+	if r == nil {
+		r = &resp{}
+	}
+	// split this write into head part and body part as the property counts them
+	hp := int64(len(data))
+	if hp > r.headLeft {
+		hp = r.headLeft
+	}
+	bodyLen := int64(len(data)) - hp
+	dHead := int64(len(delta))
+	if dHead > hp {
+		dHead = hp
+	}
+	dBody := int64(len(delta)) - dHead
+	posBefore := r.pos
+	r.headLeft -= dHead
+	r.pos += dBody
+	var want time.Duration
+	if !cs.firstDone && cs.lat > 0 {
+		want = time.Duration(cs.lat) * time.Millisecond
+		core.Count("latency-measured")
+		if el < want {
+			return bad("c18:delay-too-short", "first write took %v, configured latency is %v", el, want)
+		}
+	}
+	cs.firstDone = true
+	if r.closedByRule {
+		return res
+	}
+	if !r.shaped {
+		if st != "ok" || len(delta) != len(data) || len(evs) != 0 {
+			return bad("c18:action-on-unmatched", "a response that no current shape applies to (conn %s, gen %d/%d) was cut, or actions ran: st=%s ev=%s", id, cs.gen, e.gen, st, ev)
+		}
+		return res
+	}
+	os := e.cfg[r.regex]
+	active := func(lo, hi int64) *oAct { // first active close with lo <= byte < hi
+		var best *oAct
+		for _, c := range os.closes {
+			if c.rem != 0 && c.byt >= r.rs && c.byt >= lo && c.byt < hi && (best == nil || c.byt < best.byt) {
+				best = c
+			}
+		}
+		return best
+	}
+	switch st {
+	case "close":
+		if dHead != hp {
+			return bad("c18:close-in-head", "connection closed inside the response head")
+		}
+		var hit *oAct
+		for _, c := range os.closes {
+			if c.rem != 0 && c.byt == r.pos && c.byt >= r.rs {
+				hit = c
+				break
+			}
+		}
+		if hit == nil {
+			return bad("c18:close-at-wrong-offset", "closed after body offset %d (range start %d) where no active close action is configured", r.pos, r.rs)
+		}
+		if sk := active(posBefore, r.pos); sk != nil {
+			return bad("c18:close-skipped", "active close action at offset %d was passed; closed only at %d", sk.byt, r.pos)
+		}
+		if hit.rem > 0 {
+			hit.rem--
+		}
+		r.closedByRule = true
+		// the proxy closes a connection whose write failed; so does the harness
+		cs.c.Close()
+		cs.closed = true
+		if d := e.settle(); d != 0 {
+			return bad("c18:leak:conn-local-buckets", "closing the cut connection (%d per-shape bucket pairs) left %d drain goroutines running", cs.nLocal, d)
+		}
+	case "ok":
+		if len(delta) != len(data) {
+			return bad("c18:short-write", "Write returned no error but delivered %d of %d bytes", len(delta), len(data))
+		}
+		if bodyLen > 0 {
+			if sk := active(posBefore, r.pos); sk != nil && (sk.byt > posBefore || posBefore == r.rs) {
+				return bad("c18:close-skipped", "active close action at offset %d (range start %d) did not close; body offsets %d..%d were delivered", sk.byt, r.rs, posBefore, r.pos)
+			}
+			if c := active(r.pos, r.pos+1); c != nil {
+				shared := os.bounds[c.byt]
+				for _, h := range os.halts {
+					if h.byt == c.byt {
+						shared = true
+					}
+				}
+				for _, c2 := range os.closes {
+					if c2 != c && c2.byt == c.byt {
+						shared = true
+					}
+				}
+				if !shared {
+					return bad("c18:close-skipped", "all body bytes before offset %d were delivered but the connection was not closed", c.byt)
+				}
+			}
+		}
+	}
+	// delays (measurement): latency once per connection, infinite-count halts strictly inside the written span
+	for _, h := range os.halts {
+		if h.rem == -1 && h.byt > posBefore && h.byt < r.pos && h.byt >= r.rs {
+			want += time.Duration(h.dur) * time.Millisecond
+		}
+	}
+	if want > 0 {
+		core.Count("delay-measured")
+		if el < want {
+			return bad("c18:delay-too-short", "write took %v, configured delays sum to %v", el, want)
+		}
+	}
+	return res
+}
+
+func (e *ex) doClose(id string) core.Result {
+	cs, ok := e.conns[id]
+	if !ok || cs.closed {
+		return core.Result{Impl: "bad-op"}
+	}
+	cs.c.Close()
+	cs.closed = true
+	if d := e.settle(); d != 0 {
+		return core.Result{Impl: "closed", Sig: "c18:leak:conn-local-buckets",
+			Fail: fmt.Sprintf("closing a shaped connection with %d per-shape bucket pairs left %d of its %d drain goroutines running", cs.nLocal, d, 2*cs.nLocal)}
+	}
+	if !cs.rec.closed {
+		return core.Result{Impl: "closed", Sig: "c18:inner-not-closed", Fail: "Conn.Close did not close the wrapped connection"}
+	}
+	return core.Result{Impl: "closed"}
+}
+
+func (e *ex) doLeak(strict bool) core.Result {
+	r := core.Result{SkipModel: true, Impl: "leak ok"}
+	e.Close()
+	// what must be gone: the local buckets of every open connection, the listener's two buckets and the harness' own fast buckets
+	d := e.settle()
+	left := e.cfgLoops + d
+	core.Count("leak-check")
+	switch {
+	case d != 0:
+		r.Sig = "c18:leak:conn-local-buckets"
+		r.Fail = fmt.Sprintf("after closing every connection and the listener %d bucket drain goroutines remain; %d belong to accepted configurations, %d to closed connections or rejected configurations",
+			left, e.cfgLoops, d)
+	case left > 0 && strict:
+		r.Sig = "c18:leak:config-global-bucket"
+		r.Fail = fmt.Sprintf("%d global shape buckets of accepted configurations (%d replaced) still drain after every connection and the listener were closed", left, e.replaced)
+	case left > 0:
+		core.Count("leak:config-global-bucket(tolerated outside strict cases)")
+	}
+	return r
+}
